@@ -208,12 +208,12 @@ RAW_DESIGN_INVS = ["TypeOK", "RefEq", "MustOk", "Partition"]
 ALL_WK = ["append", "at0", "atend", "tw0", "tw1", "oob"]
 
 
-def raw_cfg(names, P, sizes, floor, initlen, maxfile, depth, ops, wkinds, dev, invs, emit, histk=0):
+def raw_cfg(names, P, sizes, floor, initlen, maxfile, depth, ops, wkinds, pre, dev, invs, emit, histk=0):
     st = lambda xs: "{" + ", ".join('"%s"' % x for x in xs) + "}"
     lines = ["SPECIFICATION Spec", "CONSTANTS", f"  Names = {st(names)}", f"  P = {P}",
              "  Sizes = {" + ", ".join(map(str, sizes)) + "}", f"  Floor = {floor}", f"  InitLen = {initlen}",
              f"  MaxFile = {maxfile}", f"  Depth = {depth}", f"  Dev = {st(sorted(dev))}", f"  Ops = {st(ops)}",
-             f"  WKinds = {st(wkinds)}", f"  HistK = {histk}",
+             f"  WKinds = {st(wkinds)}", f"  HistK = {histk}", f"  PreN = {len(pre)}",
              "VIEW HView", "CONSTRAINT DepthOK", "CHECK_DEADLOCK FALSE"]
     lines += [f"INVARIANT {i}" for i in invs]
     if emit:
@@ -234,7 +234,7 @@ def raw_run(prop, tier, seed, plan, interesting, assumptions):
             P = item.get("P", 2)
             floor = (1 << 20) // (4096 // P)          # the production growth floor (1 MiB) in cells at exact scale
             base = (item["names"], P, item["sizes"], floor, item.get("initlen", 0), item["maxfile"], item["depth"], item["ops"],
-                    item.get("wkinds", ALL_WK))
+                    item.get("wkinds", ALL_WK), item.get("pre", []))
             with cf.ThreadPoolExecutor(2) as ex:
                 fd = ex.submit(vlib.run_tlc, "MCRawDb", raw_cfg(*base, [], RAW_DESIGN_INVS, False), os.path.join(wd, "design"), 6,
                                item.get("timeout", 1500))
@@ -321,6 +321,9 @@ def raw_plan(tier):
         dict(names=["a", "b", "c"], sizes=[3, 5], maxfile=40, depth=q(tier, 6, 8), ops=["create", "write", "remove", "flush", "reopen"],
              wkinds=["append"], histk=q(tier, 0, 1), scales=[2048] + q(tier, [], [4097])),
         # initial file sizes (open_with_min_len below / above one page, unaligned)
+        # hole coalescing: four one-page regions already exist; removals / flushes / re-creation / growth
+        dict(names=["a", "b", "c", "d"], pre=["a", "b", "c", "d"], sizes=[3], maxfile=24, depth=q(tier, 6, 8),
+             ops=["create", "write", "remove", "flush"], wkinds=["append"], histk=0, scales=[2048]),
         dict(names=["a", "b"], sizes=[3], maxfile=24, depth=q(tier, 4, 6), ops=["create", "write", "remove", "flush", "reopen"],
              wkinds=["append"], initlen=1, scales=[2048]),
         dict(names=["a", "b"], sizes=[3], maxfile=24, depth=q(tier, 4, 6), ops=["create", "write", "remove", "flush", "reopen"],
@@ -373,6 +376,11 @@ def c13(prop, tier, seed):
         dict(kind="cmp", K=1, PP=2, MaxLen=3, MaxStamp=2, Depth=q(tier, 6, 7), histk=q(tier, 2, 3),
              ops=["push", "cpush", "truncate", "commit", "rollback", "rollback_before", "fault", "reimport"],
              replays=[("pco", "u32", 1), ("lz4", "u32", 1), ("zstd", "u32", 1)]),
+        # refused rollbacks while edits are pending (no usable record for the current stamp), then commit / rollback again
+        dict(kind="raw", K=2, PP=2, MaxLen=2, MaxStamp=3, Depth=q(tier, 8, 9), histk=q(tier, 1, 2),
+             ops=["push", "commit", "rollback", "rb_refused", "fault"], replays=[("bytes", "u32", 1)]),
+        dict(kind="cmp", K=2, PP=2, MaxLen=2, MaxStamp=3, Depth=q(tier, 8, 9), histk=q(tier, 1, 2),
+             ops=["push", "commit", "rollback", "rb_refused", "fault"], replays=[("pco", "u32", 1)]),
     ], "non-trivial = length >= 3 and at least one further operation after a refusal-prone call (rollback, re-import)", VEC_ASSUME)
     return merge([raw, vec])
 
